@@ -333,11 +333,55 @@ pub fn gen_c15(rng: &mut Rng, tier: Tier) -> C15Plan {
     }
 }
 
+fn ultra_stream(variant: usize) -> C15Plan {
+    let mut rng = Rng::new(0xC15_0000 + variant as u64);
+    let opts = 1;
+    let mut cfg = GenCfg::for_opts(&mut rng, opts);
+    cfg.flavour = 0;
+    cfg.pei16 = 0;
+    cfg.stuff16 = 0;
+    cfg.density = 0;
+    cfg.mb_weights = [6, 1, 0, 0, 1, 0, 0];
+    let fl = Flavour::Sorenson { version: 0, size_code: 0 };
+    let mut pics = Vec::new();
+    let n = 66_000;
+    let mut tr = 0u8;
+    // a pool of a few dozen distinct pictures, repeated with fresh temporal references
+    let i = gen_textured_intra(&mut rng, &cfg, fl.clone(), 16, 16, 0);
+    pics.push(PlanPic::from_spec(i, vec![], "valid").0);
+    let pool: Vec<PicSpec> = (0..32)
+        .map(|k| {
+            let mut c = cfg.clone();
+            c.pei16 = if k % 4 == 0 { 16 } else { 0 }; // some carry PEI bytes: other end phases
+            gen_picture(&mut rng, &c, fl.clone(), if k % 5 == 0 { PType::Disposable } else { PType::P }, 16, 16, 0)
+        })
+        .collect();
+    for _ in 1..n {
+        tr = tr.wrapping_add(1);
+        let mut s = pool[rng.usize(pool.len())].clone();
+        s.tr = tr;
+        pics.push(PlanPic::from_spec(s, vec![], "valid").0);
+    }
+    C15Plan {
+        note: format!("ultra-long stream (variant {variant}): {n} pictures through one reader"),
+        opts,
+        pics,
+        delivered_before_call: vec![],
+        chunk: 4096,
+        eintr: vec![],
+        extra_calls: 1,
+        assign: vec![],
+        max_chunk: 0,
+        stuff_bits: if variant == 1 { (0..n).map(|k| (k % 9) as u8).collect() } else { vec![] },
+        between: vec![],
+    }
+}
+
 impl Property for C15 {
     type Plan = C15Plan;
     const ID: &'static str = "C15";
     const LEVEL: &'static str = "exploration";
-    const RULE: &'static str = "seeded streams of 1-6 valid pictures (any types, Sorenson v0/v1/other with size changes at intra pictures, standard PTYPE and PLUSPTYPE), each ending at an arbitrary bit phase (varied by PEI bytes and MCBPC stuffing) and padded with fewer than eight zero bits, concatenated into one source; delivered whole, at picture boundaries, or with an arbitrary part of the following pictures, in chunks of 1..4096 bytes completed before the call that needs them, with EINTR sprinkled. Decoder A calls on the one reader, twin B uses one reader per picture; every call must agree in result, header and planes; further calls on the exhausted stream must report end of data and change nothing. evaluations = decode calls on the stream. A case is non-trivial if it is a picture boundary (picture i accepted and followed by picture i+1 in the same reader); distinct by the two pictures' bytes.";
+    const RULE: &'static str = "seeded streams of 1-6 valid pictures (any types, Sorenson v0/v1/other with size changes at intra pictures, standard PTYPE and PLUSPTYPE), each ending at an arbitrary bit phase (varied by PEI bytes and MCBPC stuffing) and padded with fewer than eight zero bits, concatenated into one source (byte-padded, or bit-contiguous with the next start code inside the byte where the previous picture ended; one stream in 100 has 20-80 pictures, a sweep pushes 66 000 pictures through one reader; sometimes two decoders take turns on the one reader, and the user commits / peeks / parses a header in a look-ahead / cleans up between calls); delivered whole, at picture boundaries, or with an arbitrary part of the following pictures, in chunks of 1..4096 bytes completed before the call that needs them, with EINTR sprinkled. Decoder A calls on the one reader, twin B uses one reader per picture; every call must agree in result, header and planes; further calls on the exhausted stream must report end of data and change nothing. evaluations = decode calls on the stream. A case is non-trivial if it is a picture boundary (picture i accepted and followed by picture i+1 in the same reader); distinct by the two pictures' bytes.";
     fn runs(tier: Tier) -> u64 {
         match tier {
             Tier::Quick => 100_000,
@@ -348,7 +392,7 @@ impl Property for C15 {
         gen_c15(rng, tier)
     }
     fn execute(plan: &C15Plan, st: &mut Stats) -> Option<Violation> {
-        st.sample(|| json!({"note": plan.note, "pictures": plan.pics.iter().map(|p| p.spec.as_ref().map(|s| format!("{:?} {}x{} {} bytes", s.ptype, s.width, s.height, p.bytes.len()))).collect::<Vec<_>>(), "delivered_before_call": plan.delivered_before_call}));
+        st.sample(|| json!({"note": plan.note, "n_pictures": plan.pics.len(), "pictures_first_12": plan.pics.iter().take(12).map(|p| p.spec.as_ref().map(|s| format!("{:?} {}x{} {} bytes", s.ptype, s.width, s.height, p.bytes.len()))).collect::<Vec<_>>(), "delivered_before_call_first_12": plan.delivered_before_call.iter().take(12).collect::<Vec<_>>()}));
         exec_c15(plan, st)
     }
     fn shrink(plan: &C15Plan) -> Vec<C15Plan> {
@@ -399,6 +443,12 @@ impl Property for C15 {
             }
         }
         out
+    }
+    fn sweeps(tier: Tier) -> Vec<C15Plan> {
+        // ULTRA-long streams: more than 65 536 pictures through ONE reader (any 16-bit
+        // counter of pictures, calls or commits wraps), byte-padded and bit-contiguous.
+        let variants = if tier == Tier::Quick { 1 } else { 2 };
+        (0..variants).map(|v| ultra_stream(v)).collect()
     }
     fn assumptions() -> Vec<String> {
         vec![
